@@ -1,4 +1,5 @@
 import OnetVerif.Model.C17
+import OnetVerif.Proofs.C17Accept
 import OnetVerif.Shapes
 /-! Property C17 — valid-peer sets decide exactly who may connect.
 Property theorems (`c17_…`), the lemmas they need, witnesses and non-vacuity examples. -/
@@ -236,8 +237,8 @@ theorem c17_history (ops : List Op) :
 
 /-! ### what the theorem does not say — recorded so nobody reads more into it -/
 
-private def setA : SetId := newPeerSetID [1]
-private def setB : SetId := newPeerSetID [2]
+def setA : SetId := newPeerSetID [1]
+def setB : SetId := newPeerSetID [2]
 
 /-- connections this router opens itself are not filtered: after dialling a peer that is in none
 of the sets, that peer's messages are dispatched -/
@@ -293,6 +294,319 @@ example :
 
 example : SpecValid (VP.set none setA [Ident.honest 1]) 1 :=
   c17_set_members none setA [Ident.honest 1] (Ident.honest 1) (by simp)
+
+/-! ### the accept path as a transition system: any interleaving -/
+namespace Acc
+
+/-- connection `c` passed the validity test at some moment of the schedule: the schedule splits into
+`pre ++ check c :: post`, after `pre` the connection had delivered the identity `p` and was waiting for
+the test, and the table at that moment was `v` and answered yes for `p` -/
+def CheckedAt (acts : List Act) (c : Nat) (p : Ident) (v : VP) : Prop :=
+  ∃ pre post, acts = pre ++ .check c :: post ∧ (run {} pre).vp = v ∧ v.isValid p = true ∧
+    phaseOf (run {} pre) c = some (.gotId p)
+
+theorem CheckedAt.snoc {acts : List Act} {c : Nat} {p : Ident} {v : VP} (h : CheckedAt acts c p v) (a : Act) :
+    CheckedAt (acts ++ [a]) c p v := by
+  obtain ⟨pre, post, he, h1, h2, h3⟩ := h
+  exact ⟨pre, post ++ [a], by simp [he], h1, h2, h3⟩
+
+/-- connection `c` was refused by the validity test at some moment of the schedule, with the identity
+`p` it had delivered, against the table of that moment -/
+def RefusedAt (acts : List Act) (c : Nat) : Prop :=
+  ∃ pre post p, acts = pre ++ .check c :: post ∧ (run {} pre).vp.isValid p = false ∧
+    phaseOf (run {} pre) c = some (.gotId p)
+
+theorem RefusedAt.snoc {acts : List Act} {c : Nat} (h : RefusedAt acts c) (a : Act) :
+    RefusedAt (acts ++ [a]) c := by
+  obtain ⟨pre, post, p, he, h1, h2⟩ := h
+  exact ⟨pre, post ++ [a], p, by simp [he], h1, h2⟩
+
+/-- what the ghost table in a phase stands for, and where a refusal comes from -/
+def PhaseOK (acts : List Act) (c : Nat) : Phase → Prop
+  | .checked p v | .registered p v | .running p v => CheckedAt acts c p v
+  | .closed .refused => RefusedAt acts c
+  | _ => True
+
+theorem PhaseOK.snoc {acts : List Act} {c : Nat} {ph : Phase} (h : PhaseOK acts c ph) (a : Act) :
+    PhaseOK (acts ++ [a]) c ph := by
+  cases ph with
+  | closed w => cases w <;> first | trivial | exact RefusedAt.snoc h a
+  | waitId => trivial
+  | gotId p => trivial
+  | checked p v => exact CheckedAt.snoc h a
+  | registered p v => exact CheckedAt.snoc h a
+  | running p v => exact CheckedAt.snoc h a
+
+/-- invariant of every schedule: a connection beyond the test passed it at a moment of this very
+schedule, a refused one failed it at a moment of this schedule, and the connection of everything in
+the dispatch log passed it -/
+def Inv (acts : List Act) : Prop :=
+  (∀ c cn, (run {} acts).conns[c]? = some cn → PhaseOK acts c cn.phase) ∧
+  (∀ e ∈ (run {} acts).log, ∃ v, CheckedAt acts e.1 e.2.1 v)
+
+theorem inv_snoc (acts : List Act) (a : Act) (h : Inv acts) : Inv (acts ++ [a]) := by
+  obtain ⟨hc, hl⟩ := h
+  constructor
+  · intro c cn' hget
+    rw [run_snoc] at hget
+    rcases step_conn _ a c cn' hget with ⟨cn, hcn, hst⟩ | ⟨_, _, hw⟩ | ⟨ha, cn, p, hcn, hph, hcase⟩
+    · have hok := PhaseOK.snoc (hc c cn hcn) a
+      rcases hst with e | ⟨_, p, e⟩ | ⟨w, hw, e⟩ | ⟨p, v, e, e'⟩ | ⟨p, v, e, e'⟩
+      · rw [e]; exact hok
+      · rw [e]; trivial
+      · rw [e]; cases w <;> first | trivial | exact absurd rfl hw
+      · rw [e'] ; rw [e] at hok; exact hok
+      · rw [e'] ; rw [e] at hok; exact hok
+    · rw [hw]; trivial
+    · subst ha
+      rcases hcase with ⟨hv, hph'⟩ | ⟨hv, hph'⟩
+      · rw [hph']
+        exact ⟨acts, [], rfl, rfl, hv, by simp [phaseOf, hcn, hph]⟩
+      · rw [hph']
+        exact ⟨acts, [], p, rfl, hv, by simp [phaseOf, hcn, hph]⟩
+  · intro e he
+    rw [run_snoc] at he
+    rcases step_log _ a e he with h0 | ⟨c, p, m, cn, v, ha, rfl, hcn, hph, _, _⟩
+    · obtain ⟨v, hv⟩ := hl e h0
+      exact ⟨v, hv.snoc a⟩
+    · have := hc c cn hcn
+      rw [hph] at this
+      exact ⟨v, CheckedAt.snoc this a⟩
+
+theorem inv_all (acts : List Act) : Inv acts := by
+  suffices h : ∀ l pre, Inv pre → Inv (pre ++ l) from by
+    have := h acts [] ⟨by intro c cn h; simp [run] at h, by intro e h; simp [run] at h⟩
+    simpa using this
+  intro l
+  induction l with
+  | nil => intro pre h; simpa using h
+  | cons a l ih =>
+    intro pre h
+    have := ih (pre ++ [a]) (inv_snoc pre a h)
+    simpa using this
+
+/-- the table stays a map along every schedule -/
+theorem run_wf (acts : List Act) : (run {} acts).vp.WF := by
+  suffices h : ∀ (l : List Act) (s : State), s.vp.WF → (run s l).vp.WF from h acts {} trivial
+  intro l
+  induction l with
+  | nil => intro s h; exact h
+  | cons a l ih =>
+    intro s h
+    apply ih
+    cases a <;> first
+      | exact set_wf _ _ _ h
+      | exact h
+      | (simp only [step, upd_vp]; exact h)
+      | (simp only [step]; split <;> exact h)
+
+end Acc
+
+/-- **any interleaving**: the server's goroutine of every accepted connection (identity, validity
+test, registration, launch, receive loop — one act per lock region), the peers' writes and closes,
+`SetValidPeers` calls and `Stop` scheduled in *any* order: whatever is handed to the dispatcher on
+connection `c` with identity `p` attached, connection `c` went through the validity test at some
+moment of the schedule, it had delivered exactly the identity `p` before, and at **that** moment the
+key of `p` was valid (no set given yet, or in some set of the table as it was then). -/
+theorem c17_accept_interleaved (acts : List Acc.Act) (c : Nat) (p : Ident) (m : Nat)
+    (h : (c, p, m) ∈ (Acc.run {} acts).log) :
+    ∃ pre post, acts = pre ++ .check c :: post ∧
+      Acc.phaseOf (Acc.run {} pre) c = some (.gotId p) ∧ SpecValid (Acc.run {} pre).vp p.key := by
+  obtain ⟨v, pre, post, he, hv, hval, hph⟩ := (Acc.inv_all acts).2 _ h
+  refine ⟨pre, post, he, hph, ?_⟩
+  have := (c17_valid_iff (Acc.run {} pre).vp (Acc.run_wf pre) p).mp (by rw [hv]; exact hval)
+  exact this
+
+/-- … read the other way round: **no message of a peer that was in no set at the time its
+connection was checked is ever dispatched, for any interleaving** — whatever `SetValidPeers` calls
+come later, also one that makes the peer a member before its first message arrives. -/
+theorem c17_accept_never_unchecked (acts : List Acc.Act) (c : Nat) (p : Ident)
+    (hno : ∀ pre post, acts = pre ++ .check c :: post →
+      Acc.phaseOf (Acc.run {} pre) c = some (.gotId p) → ¬ SpecValid (Acc.run {} pre).vp p.key) :
+    ∀ m, (c, p, m) ∉ (Acc.run {} acts).log := by
+  intro m hm
+  obtain ⟨pre, post, he, hph, hv⟩ := c17_accept_interleaved acts c p m hm
+  exact hno pre post he hph hv
+
+/-- … and its dual, **members are never refused, whatever the interleaving**: a connection that the
+server closed as "invalid peer" failed the test at a moment of the schedule at which the key of the
+identity it had delivered was in no set of the table as it was then. -/
+theorem c17_accept_refusal_justified (acts : List Acc.Act) (c : Nat)
+    (h : Acc.phaseOf (Acc.run {} acts) c = some (.closed .refused)) :
+    ∃ pre post p, acts = pre ++ .check c :: post ∧
+      Acc.phaseOf (Acc.run {} pre) c = some (.gotId p) ∧ ¬ SpecValid (Acc.run {} pre).vp p.key := by
+  simp only [Acc.phaseOf, Option.map_eq_some_iff] at h
+  obtain ⟨cn, hcn, hph⟩ := h
+  have := (Acc.inv_all acts).1 c cn hcn
+  rw [hph] at this
+  obtain ⟨pre, post, p, he, hv, hp⟩ := this
+  refine ⟨pre, post, p, he, hp, fun hs => ?_⟩
+  have := (c17_valid_iff (Acc.run {} pre).vp (Acc.run_wf pre) p).mpr hs
+  rw [hv] at this; cases this
+
+/-- **progress**: an act of a server goroutine (`recvId`, `check`, `register`, `launch`, `recv` of any
+connection) either is blocked / not due — it changes nothing — or strictly lowers the distance of
+the state from rest (phases still to go plus unread messages, summed over the connections).  So no
+schedule can keep the goroutines busy for ever without new input from the peers. -/
+theorem c17_accept_progress (s : Acc.State) (c : Nat) (a : Acc.Act) (ha : a ∈ Acc.internal c) :
+    Acc.step s a = s ∨ Acc.measure (Acc.step s a) < Acc.measure s :=
+  Acc.internal_measure s c a ha
+
+/-- no act of any server goroutine can change the state -/
+def Acc.Quiescent (s : Acc.State) : Prop := ∀ c, ∀ a ∈ Acc.internal c, Acc.step s a = s
+
+/-- **nothing is stuck when no step is enabled**: in a state where no server goroutine can move,
+every accepted connection is in one of three situations — the server waits for the peer's identity
+(the peer is connected and has written nothing), or the connection is served (`handleConn` runs, the
+router is open, every message the peer wrote has been read) or it is closed.  No connection rests
+between the identity and the receive loop, and no message rests unread behind an accepted identity. -/
+theorem c17_accept_quiescent (s : Acc.State) (hq : Acc.Quiescent s) (c : Nat) (cn : Acc.Conn)
+    (hc : s.conns[c]? = some cn) :
+    (cn.phase = .waitId ∧ cn.inbox = [] ∧ cn.peerOpen = true) ∨
+    (∃ p v, cn.phase = .running p v ∧ cn.inbox = [] ∧ cn.peerOpen = true ∧ s.closed = false) ∨
+    (∃ w, cn.phase = .closed w) := by
+  have hne : ∀ (w : Acc.Wire) (l : List Acc.Wire), l ≠ w :: l := by
+    intro w l e
+    have := congrArg List.length e
+    simp at this
+  cases hph : cn.phase with
+  | closed w => exact .inr (.inr ⟨w, rfl⟩)
+  | waitId =>
+    left
+    have h := Acc.upd_fix hc (hq c (.recvId c) (by simp [Acc.internal]))
+    unfold Acc.recvIdConn at h
+    rw [hph] at h
+    simp only at h
+    split at h
+    · have := congrArg Acc.Conn.phase h; rw [hph] at this; cases this
+    · have := congrArg Acc.Conn.phase h; rw [hph] at this; cases this
+    · rename_i hi
+      split at h
+      · rename_i ho; exact ⟨rfl, hi, ho⟩
+      · have := congrArg Acc.Conn.phase h; rw [hph] at this; cases this
+  | gotId p =>
+    exfalso
+    have h := Acc.upd_fix hc (hq c (.check c) (by simp [Acc.internal]))
+    unfold Acc.checkConn at h
+    rw [hph] at h
+    simp only at h
+    split at h <;> (have := congrArg Acc.Conn.phase h; rw [hph] at this; cases this)
+  | checked p v =>
+    exfalso
+    have h := Acc.upd_fix hc (hq c (.register c) (by simp [Acc.internal]))
+    unfold Acc.registerConn at h
+    rw [hph] at h
+    simp only at h
+    split at h <;> (have := congrArg Acc.Conn.phase h; rw [hph] at this; cases this)
+  | registered p v =>
+    exfalso
+    have h := Acc.upd_fix hc (hq c (.launch c) (by simp [Acc.internal]))
+    unfold Acc.launchConn at h
+    rw [hph] at h
+    simp only at h
+    split at h <;> (have := congrArg Acc.Conn.phase h; rw [hph] at this; cases this)
+  | running p v =>
+    right; left
+    have h0 := hq c (.recv c) (by simp [Acc.internal])
+    simp only [Acc.step, hc] at h0
+    have h1 := congrArg (fun t => t.conns[c]?) h0
+    simp only [List.getElem?_set_self (List.getElem?_eq_some_iff.mp hc).1, hc, Option.some.injEq] at h1
+    unfold Acc.recvConn at h1
+    rw [hph] at h1
+    simp only at h1
+    split at h1
+    · have := congrArg Acc.Conn.phase h1; rw [hph] at this; cases this
+    · rename_i hcl
+      split at h1
+      · rename_i m rest hi
+        have := congrArg Acc.Conn.inbox h1
+        simp only [hi] at this
+        exact absurd this (hne _ _)
+      · rename_i q rest hi
+        have := congrArg Acc.Conn.inbox h1
+        simp only [hi] at this
+        exact absurd this (hne _ _)
+      · rename_i hi
+        split at h1
+        · rename_i ho; exact ⟨p, v, rfl, hi, ho, by simpa using hcl⟩
+        · have := congrArg Acc.Conn.phase h1; rw [hph] at this; cases this
+
+/-- **the sequential model is the transition system run without interleaving**: from any state whose
+router is open, the acts of one connection attempt in a row — connect, the peer writes its identity
+and a message, the server reads the identity, tests, registers, launches, reads the message — have
+exactly the effect of `C17.step … (.offer p m)`: the table is untouched, the connection is registered
+(with the table it was tested against) and `(p, m)` dispatched iff `isValid p`; otherwise nothing is
+registered and nothing dispatched. -/
+theorem c17_offer_is_uninterleaved_accept (s : Acc.State) (p : Ident) (m : Nat) (hopen : s.closed = false) :
+    let c := s.conns.length
+    let s' := Acc.run s (Acc.offerActs c p m)
+    Acc.abs s' = (step (Acc.abs s) (.offer p m)).1 ∧
+    s'.log = s.log ++ (if s.vp.isValid p then [(c, p, m)] else []) ∧
+    ((step (Acc.abs s) (.offer p m)).2 = if s.vp.isValid p then .dispatched p m else .refused) := by
+  intro c s'
+  have hget : (s.conns ++ [({} : Acc.Conn)])[s.conns.length]? = some {} := by simp
+  have key : s' = if s.vp.isValid p then
+        { s with conns := s.conns ++ [{ phase := .running p s.vp, inbox := [], peerOpen := true }],
+                 log := s.log ++ [(c, p, m)] }
+      else { s with conns := s.conns ++ [{ phase := .closed .refused, inbox := [.msg m], peerOpen := true }] } := by
+    simp only [s', c, Acc.offerActs, Acc.run, List.foldl_cons, List.foldl_nil]
+    by_cases hv : s.vp.isValid p = true
+    · simp [Acc.step, Acc.upd, Acc.recvIdConn, Acc.checkConn, Acc.registerConn, Acc.launchConn,
+        Acc.recvConn, hv, hopen]
+    · simp [Acc.step, Acc.upd, Acc.recvIdConn, Acc.checkConn, Acc.registerConn, Acc.launchConn,
+        Acc.recvConn, hv, hopen]
+  rw [key]
+  by_cases hv : s.vp.isValid p = true
+  · simp [hv, Acc.abs, Acc.absConns, step, List.filterMap_append]
+  · simp [hv, Acc.abs, Acc.absConns, step, List.filterMap_append]
+
+/-! ### the transition system: witnesses and non-vacuity -/
+
+/-- the filter acts at the test, not afterwards — also inside the accept path: a `SetValidPeers` that
+removes the peer between its test and its registration does not stop it (the first message is
+dispatched) … -/
+def Acc.exRemovedAfterCheck : List Acc.Act :=
+  [.connect, .peerSend 0 (.ident (Ident.honest 1)), .setPeers setA [Ident.honest 1], .recvId 0, .check 0,
+   .setPeers setA [], .register 0, .launch 0, .peerSend 0 (.msg 7), .recv 0]
+
+theorem c17_accept_not_retroactive :
+    (Acc.run {} Acc.exRemovedAfterCheck).log = [(0, Ident.honest 1, 7)] ∧
+    (Acc.run {} Acc.exRemovedAfterCheck).vp.isValid (Ident.honest 1) = false := by decide
+
+/-- … and a `SetValidPeers` that adds the peer after it was refused does not revive the connection:
+what it wrote is never read -/
+def Acc.exAddedAfterRefusal : List Acc.Act :=
+  [.setPeers setA [Ident.honest 1], .connect, .peerSend 0 (.ident (Ident.honest 9)), .recvId 0, .check 0,
+   .setPeers setA [Ident.honest 9], .peerSend 0 (.msg 7), .register 0, .launch 0, .recv 0]
+
+theorem c17_accept_refusal_final :
+    (Acc.run {} Acc.exAddedAfterRefusal).log = [] ∧
+    Acc.phaseOf (Acc.run {} Acc.exAddedAfterRefusal) 0 = some (.closed .refused) ∧
+    (Acc.run {} Acc.exAddedAfterRefusal).vp.isValid (Ident.honest 9) = true := by decide
+
+/-- two connections interleaved with two calls: the member's message is dispatched, the
+non-member's is not; a first message that is not an identity ends the connection -/
+example :
+    let s := Acc.run {} [.connect, .connect, .connect, .peerSend 1 (.ident (Ident.honest 9)),
+      .peerSend 0 (.ident ⟨1, 5⟩), .peerSend 2 (.msg 3), .recvId 1, .setPeers setA [Ident.honest 1], .recvId 0,
+      .recvId 2, .check 1, .check 0, .setPeers setB [Ident.honest 9], .register 0, .peerSend 0 (.msg 4),
+      .peerSend 1 (.msg 5), .launch 0, .register 1, .recv 0, .recv 1, .recv 0]
+    s.log = [(0, ⟨1, 5⟩, 4)] ∧ Acc.phaseOf s 1 = some (.closed .refused) ∧
+      Acc.phaseOf s 2 = some (.closed .idErr) := by decide
+
+/-- the hypotheses of `c17_accept_quiescent` are met by a state with a served connection -/
+example : Acc.Quiescent (Acc.run {} Acc.exRemovedAfterCheck) := by
+  intro c a ha
+  simp only [Acc.internal, List.mem_cons, List.not_mem_nil, or_false] at ha
+  cases c with
+  | zero => rcases ha with rfl | rfl | rfl | rfl | rfl <;> decide
+  | succ n => rcases ha with rfl | rfl | rfl | rfl | rfl <;> rfl
+
+/-- `Router.Stop` between the test and the registration: the connection is closed, nothing dispatched -/
+example :
+    let s := Acc.run {} [.connect, .peerSend 0 (.ident (Ident.honest 1)), .peerSend 0 (.msg 7), .recvId 0,
+      .check 0, .stop, .register 0, .launch 0, .recv 0]
+    s.log = [] ∧ Acc.phaseOf s 0 = some (.closed .routerClosed) := by decide
 
 /-! ### the code regions the model stands for
 Regenerated from /repo's source on every run (`harness/cmd/astfacts` → `OnetVerif/Shapes.lean`): the
